@@ -170,3 +170,33 @@ fn rx_receive_genuine() {
     assert!(matches!(r, Ok(ReceiveAction::Processed)), "a genuine response to an outstanding request is delivered");
     assert!(unsafe { peek_ptr(sref.frame_at_index(k)) }.0 == FrameState::RxDone);
 }
+
+//@h name=eth_accessors props=C05,C01 fn=src/ethernet.rs::EthernetFrame obligation="EthernetFrame over a byte slice of 14..=20 bytes (every byte symbolic): new_checked succeeds iff >= 14 bytes; dst_addr = bytes 0..6, src_addr = bytes 6..12, ethertype = big-endian bytes 12..14, payload = bytes 14.. - the accessor contracts the Verus unit rx_route assumes"
+#[cfg_attr(kani, kani::proof)]
+#[cfg_attr(kani, kani::unwind(24))]
+#[cfg_attr(all(test, verif_replay), test)]
+fn eth_accessors() {
+    use crate::ethernet::{EthernetAddress, EthernetFrame};
+    let b: [u8; 20] = vk::any_array();
+    let len: usize = vk::any();
+    vk::assume(len <= 20);
+    let s = &b[..len];
+    match EthernetFrame::new_checked(s) {
+        Err(e) => assert!(len < 14 && e == crate::error::Error::Pdu(crate::error::PduError::Ethernet)),
+        Ok(f) => {
+            assert!(len >= 14);
+            assert!(f.dst_addr() == EthernetAddress([b[0], b[1], b[2], b[3], b[4], b[5]]));
+            assert!(f.src_addr() == EthernetAddress([b[6], b[7], b[8], b[9], b[10], b[11]]));
+            assert!(f.ethertype() == u16::from_be_bytes([b[12], b[13]]));
+            let p = f.payload();
+            assert!(p.len() == len - 14);
+            let mut i = 0;
+            while i < 6 {
+                if i < p.len() {
+                    assert!(p[i] == b[14 + i]);
+                }
+                i += 1;
+            }
+        }
+    }
+}
